@@ -10,7 +10,11 @@ From KD Require Import C20.Model C20.Spec.
 
 Record obs := {
   o_order : list path;        (* entries in the order in which the call removed them (the scan oracle) *)
-  o_trace : list ev;          (* the system calls that completed *)
+  o_sched : list nat;         (* the schedule of the workers (the harness cannot observe it: []) *)
+  o_jobs : option (list (list name));   (* the tasks handed to joblib.Parallel (zip names), None = no pool was run *)
+  o_torn : option nat;        (* Some n: the call was killed inside a write, n bytes were written (the last event) *)
+  o_trace : list ev;          (* the system calls of the calling process that completed (what joblib's workers do is
+                                 not observed) *)
   o_ret : option result;      (* None = killed *)
   o_tree : fs;                (* the sandbox afterwards *)
 }.
@@ -46,8 +50,9 @@ Definition result_eqb (a b : result) : bool :=
      | _, _ => false
      end.
 
-(* the state after exactly j completed system calls of the plan *)
-Fixpoint run_events (j : nat) (ops : list op) (s : fs) : fs * list ev :=
+(* the state after exactly j completed system calls of the plan; t = Some n: ... and the first n bytes of the
+   write that comes next *)
+Fixpoint run_events (j : nat) (t : option nat) (ops : list op) (s : fs) : fs * list ev :=
   match ops with
   | [] => (s, [])
   | o :: r =>
@@ -55,31 +60,78 @@ Fixpoint run_events (j : nat) (ops : list op) (s : fs) : fs * list ev :=
       | None => (s, [])
       | Some (s1, e1) =>
           if List.length e1 <=? j
-          then let '(s2, e2) := run_events (j - List.length e1) r s1 in (s2, e1 ++ e2)
-          else (s, [])
+          then let '(s2, e2) := run_events (j - List.length e1) t r s1 in (s2, e1 ++ e2)
+          else match t with
+               | Some n => match tear n o with
+                           | Some o' => match apply o' s with Some (s1', e1') => (s1', e1') | None => (s, []) end
+                           | None => (s, [])
+                           end
+               | None => (s, [])
+               end
       end
+  end.
+
+(* the plan of a call = what the calling process does before the pool, what the workers do, the end marker *)
+Definition split3 (c : config) (sched : list nat) (ops : list op) : list op * list op * list op :=
+  let k := List.length (worker_ops c sched) in
+  let n := List.length ops in
+  (firstn (n - k - 2) ops, firstn k (skipn (n - k - 2) ops), skipn (n - 2) ops).
+
+Definition model_jobs (c : config) : option (list (list name)) :=
+  if parallel c
+  then match c_dir c with Some items => Some (unzip_jobs (c_workers c) (zip_items items)) | None => None end
+  else None.
+
+Definition jobs_eqb (a b : option (list (list name))) : bool :=
+  match a, b with
+  | None, None => true
+  | Some x, Some y => list_eqb (list_eqb String.eqb) x y
+  | _, _ => false
   end.
 
 (* one observed invocation against the model started from the model state s: Some s' = agrees *)
 Definition model_step (c : config) (s : fs) (o : obs) : option fs :=
-  match plan c (o_order o) s with
+  match plan c (o_order o) (o_sched o) s with
   | ORaise => None
   | OSkip r =>
-      match o_trace o, o_ret o with
-      | [], Some r' => if result_eqb r r' && fs_eqb s (o_tree o) then Some s else None
-      | _, _ => None
+      match o_trace o, o_ret o, o_jobs o with
+      | [], Some r', None => if result_eqb r r' && fs_eqb s (o_tree o) then Some s else None
+      | _, _, _ => None
       end
   | ORun ops r =>
+      let '(pre, mid, post) := split3 c (o_sched o) ops in
       match o_ret o with
       | Some r' =>
-          match run ops s with
-          | Some (s', evs) =>
-              if result_eqb r r' && list_eqb ev_eqb evs (o_trace o) && fs_eqb s' (o_tree o) then Some s' else None
+          match run pre s with
+          | Some (s1, e1) =>
+              match run mid s1 with
+              | Some (s2, _) =>
+                  match run post s2 with
+                  | Some (s3, e3) =>
+                      if result_eqb r r' && list_eqb ev_eqb (e1 ++ e3) (o_trace o) && fs_eqb s3 (o_tree o)
+                         && jobs_eqb (o_jobs o) (model_jobs c)
+                      then Some s3 else None
+                  | None => None
+                  end
+              | None => None
+              end
           | None => None
           end
       | None =>
-          let '(s', evs) := run_events (List.length (o_trace o)) ops s in
-          if list_eqb ev_eqb evs (o_trace o) && fs_eqb s' (o_tree o) then Some s' else None
+          let jj := List.length (o_trace o) in
+          let j := match o_torn o with Some _ => jj - 1 | None => jj end in
+          let '(sa, ea) := run_events j (o_torn o) pre s in
+          if List.length ea =? jj
+          then (* killed before the pool was started *)
+               if list_eqb ev_eqb ea (o_trace o) && fs_eqb sa (o_tree o) && jobs_eqb (o_jobs o) None then Some sa else None
+          else (* killed after the pool had returned *)
+               match run (pre ++ mid) s with
+               | Some (s2, _) =>
+                   let '(sb, eb) := run_events (j - List.length ea) (o_torn o) post s2 in
+                   if list_eqb ev_eqb (ea ++ eb) (o_trace o) && fs_eqb sb (o_tree o) && jobs_eqb (o_jobs o) (model_jobs c)
+                   then Some sb else None
+               | None => None
+               end
       end
   end.
 
